@@ -9,6 +9,15 @@ CLAIMED = {
  "C03": ("invariant walker at a hook (state snapshot) after every call",
          "After every call of the C01 workloads plus an invalid-argument sweep from every swept state, the complete internal state (hook snapshot) is walked for exactly the clauses of the statement (parent exists, is a real directory and lists the child; listed names exist; entry path == key; data records == regular files; reachability from / == all keys; cwd/root absolute; lock not poisoned) and cross-checked through exists()/all_paths()/Display.",
          "Invariants are observed at call boundaries; concurrent quiescent points are covered by C04's runs.", "5/C03"),
+ "C05": ("reference-function monitor + metamorphic spelling check + syscall-trace checker (strace)",
+         "Oracle 1: Memfs::abs and Stdfs::abs are compared with a string-level reference for every string up to length 6/7 over {/ . ~ $ : a 2-byte}, scheme-prefixed variants and random longer strings, under 4 cwds and 3 HOME values (one per worker process), with well-formedness, idempotence and cross-backend equality. Oracle 2: for a prepared state x every path-taking method x every spelling of the argument, the call and the call with abs(argument) on an identical instance must give equal results and complete states (Memfs: hook snapshot; Stdfs: disk observer). Oracle 3: strace -e trace=%file of a child bracketing 10^4 abs() calls per backend between marker syscalls; only getcwd (Stdfs) may appear.",
+         "UTF-8 paths; undelimited variable names not judged; symlink()'s target is documented as link-relative and is not an abs() argument.", "5/C05"),
+ "C08": ("reference walker + constrained-sequence checker over random trees x full option cross-product",
+         "Seeded random trees (links to files/dirs/ancestors/absent paths, cycles) x ~3000 option records x descriptor caps {0,1,2,50} (hook) and a 60-deep chain: a reference walker computes what the options denote; the produced sequence is checked for termination, multiset equality, filter soundness, parent/contents order, exact sequence equality whenever an order is requested, LinkLooping instead of endless descent and cap independence; the listing helpers for absolute/distinct/sorted/argument-free results agreeing with exists/is_dir/is_file in both directions. Memfs for all, Stdfs on materialised in-domain trees.",
+         "Link-to-link chains only without follow; sibling order judged only when requested; ties fall back to multisets.", "5/C08"),
+ "C12": ("catch_unwind + CPU/wall watchdog + counting allocator + post-error probe over exhaustive hostile strings",
+         "Every public Memfs method is called under catch_unwind with every string up to length 3/4 over a 13-symbol hostile alphabet (two-path methods: every pair up to length 2/3) from 3 prepared states, plus long '..' chains, 4 KiB names, random Unicode, extreme modes/ids and handle scripts; after every Err or panic a probe (create/exists/remove, lock not poisoned, C03 walker) must succeed; a watchdog turns a non-returning call into a hang record and a counting allocator unbounded allocation into a blow-up record. All PathExt/sys path helpers, StringExt, IteratorExt and PeekableExt run over the same inputs. Executed in a checked-arithmetic and in a wrapping-arithmetic build.",
+         "A hang is decided on CPU time burnt inside one call (20 s) or 90 s without progress and CPU; other stalls are inconclusive.", "5/C12"),
  "C06": ("byte-vector model monitor with re-read of every file after every call",
          "A path -> bytes model is stepped in lock-step with seeded histories of every write/append/line helper, write() and append() handles (also held open across calls on other files), copy and move_p over 4 files with hostile data (empty, multi-byte, invalid UTF-8, embedded newlines, 4 KiB / 64 KiB, unique ids); after every call all files are re-read through read/read_all/read_lines (and std::fs::read on Stdfs) and compared, so leaks between files and aliasing are observed directly. Memfs, Vfs::Memfs and Stdfs.",
          "A held handle is only interleaved with calls on other files; Stdfs half as uid 1000.", "5/C06"),
